@@ -93,6 +93,11 @@ let () =
         (* ---- emptiness as the model sees it *)
         let es = b01 ea ^ b01 eb ^ b01 ec in
         if es <> f.(6) then corr "is_empty" (Printf.sprintf "model=%s impl=%s" es f.(6));
+        (* ---- the hypotheses of the completeness theorems (operand_ok, decided by operand_okb) hold
+           of every input that the implementation's Validate accepts *)
+        if valid && not fl && nparts a + nparts b <= big_limit then begin
+          count "operand_ok_checked";
+          if not (operand_okb a && operand_okb b) then corr "operand_ok_of_valid" "Validate accepts, operand_okb rejects" end;
         (* ---- Intersects *)
         let mi = timed "model_ix" (fun () -> intersects a b) in
         let mi' = intersects b a in
